@@ -85,8 +85,8 @@ def modelT (l : Lay) (t : IdxT) (pat : Pat) (vals : List Int) (all : Bool) : Exc
   let tp ← transposePat pat
   let tvals := vals.reverse
   let ne ← Ext.ofVals t tp (ctorVals tp tvals all)
-  let m : TMap := { lay := l, nested := ne }
-  let e ← m.extents t
+  let m ← TMap.make t l ne
+  let e := m.extents
   let exts ← (List.range 2).mapM (e.extent t)
   let req ← m.reqSpan t
   let strs ← (List.range 2).mapM (m.stride t)
